@@ -7,6 +7,7 @@ import LassoModel.Borrow
 import LassoModel.Conc
 import LassoModel.ConcArena
 import LassoModel.Extracted
+import LassoModel.Construct
 /-
   Line-protocol driver: one operation per input line, one answer per output line.
   The definitions executed here are the ones the theorems in `LassoProofs` are about.
@@ -405,6 +406,27 @@ def newObj (st : DState) (kind : String) (bytes limit : Nat) : Option Obj :=
   | "threaded" => some (.threaded (Threaded.new st.N bytes limit))
   | _ => none
 
+/-- `ctor`: build through one of the constructors / builders (configuration interpreted from the regenerated
+tables), report usage and limit, then the trace of interning `items` into a second object built the same
+way; the slot gets the fresh object. -/
+def opCtor (st : DState) (s : Nat) (kind ctorName capB : String) (strings bytes : Nat) (limB : String)
+    (limit : Nat) (items : List Bytes) : DState × String :=
+  let c := parseCtorName ctorName
+  let cb := parseBuilderName capB
+  let lb := parseBuilderName limB
+  let obj : Option Obj := match kind with
+    | "rodeo" => (Rodeo.construct st.N c cb strings bytes lb limit).map Obj.rodeo
+    | "threaded" => (Threaded.construct st.N c cb strings bytes lb limit).map Obj.threaded
+    | _ => none
+  match obj with
+  | none => (st, "bad-op")
+  | some o =>
+    let st0 := setSlot st s o
+    let (_, trace) := items.foldl (fun (acc : DState × List String) x =>
+      let (st', r) := opIntern acc.1 s x false
+      (st', acc.2 ++ [s!"{r}:{(getSlot st' s).usage}"])) (st0, [])
+    (st0, s!"ok {o.usage} {showLimit o.maxMem}" ++ String.join (trace.map fun t => " " ++ t.replace " " "_"))
+
 def parseLimit (s : String) : Option Nat := if s == "max" then some usizeMax else s.toNat?
 
 /-- Interpretation of one (already split) operation. -/
@@ -541,6 +563,10 @@ def stepOp (st : DState) (toks : List String) : DState × String :=
   | ["de", kind, s, doc] => match s.toNat? with
     | some s => opDe st kind s doc
     | none => (st, "bad-op")
+  | ["ctor", s, kind, ctorName, capB, strings, bytes, limB, limit, items] =>
+    match s.toNat?, strings.toNat?, bytes.toNat?, (if limit == "max" then some usizeMax else limit.toNat?), unhexList items with
+    | some s, some ns, some nb, some l, some xs => opCtor st s kind ctorName capB ns nb limB l xs
+    | _, _, _, _, _ => (st, "bad-op")
   | ["fromIter", s, kind, items, _hint] => match s.toNat?, unhexList items with
     | some s, some xs => opFromIter st s kind xs
     | _, _ => (st, "bad-op")
@@ -582,7 +608,7 @@ def mutatingOps : List String := ["intern", "internP", "internS", "internSP", "e
 def subjectsOf (toks : List String) : List String :=
   match toks with
   | op :: a :: rest =>
-    if op == "new" || op == "de" || op == "fromIter" || op == "drop" then []
+    if op == "new" || op == "ctor" || op == "de" || op == "fromIter" || op == "drop" then []
     else if op == "cloneFrom" || op == "tryCloneFrom" || op == "eq" then a :: rest.take 1
     else [a]
   | _ => []
